@@ -44,9 +44,14 @@ def exprs(a):
          ("(n / 1)", "paren", str(a["n"])), ("&s", "name", a["s"]), ('"q\\"}{"', "str", 'q"}{'), ("42", "num", "42"),
          ("ps.len()", "paren", str(len(a["ps"]))), ("(xs.iter().map(|x| x + 1).sum::<u32>())", "paren", str(sum(x + 1 for x in a["xs"]))),
          ("(n/(1))", "paren", str(a["n"])), ('(n/"s".len())', "paren", str(a["n"])), ("[n, 1][0]", "paren", str(a["n"])),
-         ('Some("a<").unwrap()', "paren", "a<"), ("Html(s)", "paren", None), ("s.to_buffer().unwrap()", "paren", None)]
+         ('Some("a<").unwrap()', "paren", "a<"), ("Html(s)", "paren", None), ("s.to_buffer().unwrap()", "paren", None),
+         # white space inside string literals (runs of blanks, a tab, a line break with indentation) must reach rustc as written
+         ('"a  b"', "str", "a  b"), ('"t\tz  "', "str", "t\tz  "), ('(["x", "y"].join(",\n    "))', "paren", "x,\n    y"),
+         ('format!("{}  {}\n  .", n, n)', "paren", "%d  %d\n  ." % (a["n"], a["n"])), ('s.replace("  ", " \t ")', "paren", a["s"].replace("  ", " \t ")),
+         # a value of type char (its Display goes through Formatter::write_char) that needs escaping
+         ("s.chars().nth(1).unwrap_or('&')", "paren", a["s"][1] if len(a["s"]) > 1 else "&"), ("format!(\"{:<>3}|{:&^5}\", n, n)", "paren", "%s|%s" % (str(a["n"]).rjust(3, "<"), str(a["n"]).center(5, "&")))]
     return L
-NEXPR = 22
+NEXPR = 29
 RAW_EXPRS = {20, 21}   # Html(s): raw; to_buffer: escaped once, written verbatim
 
 CONDS = [("b", lambda a: a["b"]), ("!b", lambda a: not a["b"]), ("n == 0", lambda a: a["n"] == 0),
@@ -64,7 +69,7 @@ class Gen:
         self.text_alpha = text_alpha or TEXT_ALPHA
         self.kinds = kinds or ["text", "text", "esc", "cmt", "expr", "expr", "if", "iflet", "for", "match", "call"]
         self.depth = depth
-        self.cmt_bodies = cmt_bodies or [" c ", "", " a * b @ c ", "\n x \n", "*", " **", "@", "* @ *", " }{ "]
+        self.cmt_bodies = cmt_bodies or [" c ", "", " a * b @ c ", "\n x \n", "*", " **", "@", "* @ *", " }{ ", " static/*.css ", " */ ", "/*", " /* x */ ", "*/ \" /*"]
         self.max_items = max_items
         self.fresh = 0
         self.mode = "canon"
@@ -125,7 +130,10 @@ class Gen:
                 blocks = []
                 for _ in range(self.callees[name]):
                     r = R.random()
-                    blocks.append([] if r < 0.15 else [("cmt", " only ")] if r < 0.3 else self.dironly(depth - 1, nlocals) if r < 0.5 and depth > 1 else self.items(depth - 1, nlocals))
+                    blocks.append([] if r < 0.15 else [("cmt", " only ")] if r < 0.25
+                                  else [("text", R.choice([" ", "\n", "  \t", " \r\n ", "\n\n"]))] if r < 0.32                      # a block of white space only
+                                  else [("text", " "), ("cmt", " todo "), ("text", "\n")] if r < 0.36
+                                  else self.dironly(depth - 1, nlocals) if r < 0.5 and depth > 1 else self.items(depth - 1, nlocals))
                 out.append(("call", name, R.randrange(NEXPR + nlocals), blocks))
         return out
 
